@@ -290,6 +290,57 @@ fn gen_case(r: &mut Rng, size_class: u32) -> Case {
     Case { schema, rows, pred, int_truthy }
 }
 
+/// Tables of 100–620 rows with a table-local predicate that is an OR / AND tree of
+/// column-vs-literal comparisons (both operand orders) and BETWEEN: the shape the scan turns into
+/// a columnar bitmap filter evaluated in 256-row batches (scan/predicates.rs,
+/// columnar/filter.rs). Literals are taken from the data so that boundary rows exist, and the
+/// rows at positions 255 / 511 are made to satisfy the predicate's first leaf.
+fn gen_large_or_case(r: &mut Rng) -> Case {
+    let schema = Schema { table: "t".into(), cols: vec![("c0".into(), Ty::Int), ("c1".into(), Ty::Int), ("c2".into(), Ty::Int)] };
+    let n = *r.pick(&[100usize, 129, 255, 256, 257, 300, 511, 512, 520, 620]);
+    let dom = *r.pick(&[5i64, 9, 40]);
+    let mut rows: Vec<Vec<Lit>> = (0..n)
+        .map(|_| (0..3).map(|_| if r.chance(1, 8) { Lit::Null } else { Lit::I(r.range(-2, dom)) }).collect())
+        .collect();
+    let cmp = [Op::Eq, Op::Ne, Op::Lt, Op::Le, Op::Gt, Op::Ge];
+    let mut leaf = |r: &mut Rng, rows: &Vec<Vec<Lit>>| -> E {
+        let col = r.below(3) as usize;
+        // a literal that occurs in the column (boundary hits), sometimes one that does not
+        let lit = match rows.get(r.below(n as u64) as usize).map(|row| row[col].clone()) {
+            Some(Lit::I(v)) if r.chance(4, 5) => v,
+            _ => r.range(-3, dom + 1),
+        };
+        match r.below(5) {
+            0 | 1 => E::Bin(*r.pick(&cmp), Box::new(E::Col(col)), Box::new(E::Lit(Lit::I(lit)))),
+            2 | 3 => E::Bin(*r.pick(&cmp), Box::new(E::Lit(Lit::I(lit))), Box::new(E::Col(col))),
+            _ => E::Between(Box::new(E::Col(col)), Box::new(E::Lit(Lit::I(lit))), Box::new(E::Lit(Lit::I(lit + r.range(0, 3)))), false),
+        }
+    };
+    let first = leaf(r, &rows);
+    let mut pred = first.clone();
+    let extra = r.range(1, 3);
+    for k in 0..extra {
+        let l = leaf(r, &rows);
+        let op = if k == 0 || r.chance(2, 3) { Op::Or } else { Op::And };
+        pred = if r.chance(1, 2) { E::Bin(op, Box::new(pred), Box::new(l)) } else { E::Bin(op, Box::new(l), Box::new(pred)) };
+    }
+    // batch-boundary rows: make positions 255 and 511 satisfy the first leaf with equality on its literal
+    if let E::Bin(_, a, b) = &first {
+        let (col, lit) = match (&**a, &**b) {
+            (E::Col(c), E::Lit(Lit::I(v))) | (E::Lit(Lit::I(v)), E::Col(c)) => (Some(*c), *v),
+            _ => (None, 0),
+        };
+        if let Some(c) = col {
+            for pos in [255usize, 511] {
+                if pos < rows.len() {
+                    rows[pos][c] = Lit::I(lit);
+                }
+            }
+        }
+    }
+    Case { schema, rows, pred, int_truthy: false }
+}
+
 fn main() {
     engine::silence_panics();
     let args = Args::parse("C06");
@@ -316,6 +367,14 @@ fn main() {
             let names: Vec<String> = c.schema.cols.iter().map(|(n, _)| n.clone()).collect();
             rep.sample(serde_json::json!({"rows": c.rows.len(), "predicate": c.pred.sql(&names), "model_request_expr": c.pred.sx().to_string()}));
         }
+        run_case(&c, &mut model, &mut rep);
+    }
+    // large tables × OR trees of simple comparisons (the batched bitmap filter of the scan)
+    let n_large = args.n(40, 1500);
+    for _ in 0..n_large {
+        let mut r = rng.fork();
+        let c = gen_large_or_case(&mut r);
+        rep.count("large_or_tree_cases");
         run_case(&c, &mut model, &mut rep);
     }
     std::process::exit(rep.finish());
